@@ -1,20 +1,7 @@
 #!/bin/sh
 # Offline build of the whole framework from files on disk (MANIFEST.setup_cmd).
-set -e
+# Full .vo builds only (never -vos); cargo with --offline; nothing is fetched.
 cd "$(dirname "$0")"
-export CARGO_NET_OFFLINE=true
+export CARGO_NET_OFFLINE=true GOPROXY=off PIP_NO_INDEX=1
 mkdir -p build evidence replays
-# Coq development: full .vo build (never -vos), then extraction + runner
-( cd coq && coq_makefile -f _CoqProject $(find Model Spec Proofs Properties Extract -name '*.v' | sort) -o Makefile >/dev/null \
-  && timeout 3000 make -j16 > ../build/coq-build.log 2>&1 ) || { tail -50 build/coq-build.log; exit 1; }
-./runner/build.sh
-# implementation side: harness linked against /repo, and the real CLI binary
-cp /repo/Cargo.lock harness/Cargo.lock
-( cd harness && cargo build --release --offline 2>&1 | tail -3 ) &
-( RUSTFLAGS="--cfg tauri_typegen_verif" cargo build --release --offline --manifest-path /repo/Cargo.toml \
-    --bin cargo-tauri-typegen --target-dir build/target-repo 2>&1 | tail -3 ) &
-wait
-test -x build/target/release/tt-harness
-test -x build/target-repo/release/cargo-tauri-typegen
-test -x build/runner/tt-runner
-echo setup-ok
+exec python3 -m tools.build setup
